@@ -4,11 +4,20 @@
 EXTENDS Integers, Sequences, FiniteSets, TLC, Json, IOUtils
 Log == ndJsonDeserialize(IOEnv.TRACE)
 VARIABLE l
-\* observed handshakes may exceed the model's bound by one (a rekey that falls on the edge of the window)
+\* observed handshakes may exceed the model's bound by one (a rekey that falls on the edge of the window); the
+\* bound is ChannelTime!MaxHellosAt evaluated at the REAL duration of the traffic phase (a busy machine stretches it)
+Bound(ev) == 1 + (ev.ticks \div ev.R) + (IF ev.pat = "both" THEN 0 ELSE (ev.ticks \div ev.K) + 1)
 Viol(ev) ==
     (IF ev.panic THEN {"NoPanic"} ELSE {})
-    \cup (IF ~ev.panic /\ ev.hellos > ev.maxhellos + 1 /\ 2 * ev.stall_ms < ev.kms THEN {"NoIdleTeardown"} ELSE {})
+    \* (steady-traffic cases only: the short traffic phase of the after-expiry cases ends within a tick of the first
+    \* rekey, so its hello count is not comparable with the model's bound)
+    \cup (IF ~ev.panic /\ ev.post = "none" /\ ev.hellos > Bound(ev) + 1 /\ 2 * ev.stall_ms < ev.kms THEN {"NoIdleTeardown"} ELSE {})
     \cup (IF ~ev.panic /\ ev.sendfail > 0 /\ ev.stall_ms < 200 THEN {"SendSurvives"} ELSE {})
+    \* the same peer after total expiry: traffic must flow again
+    \cup (IF ~ev.panic /\ ev.post = "resume" /\ ev.resume_fail > 0 /\ ev.stall_ms < 200 THEN {"SendSurvives"} ELSE {})
+    \* another key in the peer's place after total expiry: nothing handed to it, nothing accepted from it, binding unchanged
+    \cup (IF ~ev.panic /\ ev.post = "stranger" /\ (ev.to_stranger > 0 \/ ev.from_stranger > 0 \/ ev.rk_changed)
+          THEN {"Continuity"} ELSE {})
     \cup (IF ~ev.panic /\ ev.dups > 0 THEN {"AtMostOnce"} ELSE {})
     \cup (IF ~ev.panic /\ ev.unknown > 0 THEN {"Authentic"} ELSE {})
 TraceInit == l = 1
